@@ -229,6 +229,11 @@ def run(ctx):
     from ..order import map_key_order_rules
     map_key_order_rules(ctx, 'C13.6-map-key-order')
 
+    # dependency: Atom::new
+    ctx.rule('C13.3-atom-interning', 'both decoders create atoms with Atom::new: its interning tables agree entry by entry', floor=1)
+    from ..etf import check_atom_tables
+    check_atom_tables(ctx, 'C13.3-atom-interning')
+
 
 def _offset_shape(B, c):
     def is_total(x):
